@@ -91,7 +91,7 @@ def rule_derived(ctx, py):
                 out[ast.literal_eval(n.test.comparators[0])] = ast.literal_eval(n.body[0].value)
         if out:
             return out
-        for n in ast.walk(fn):
+        for n in list(ast.walk(fn)) + list(ast.walk(f)):
             if isinstance(n, ast.Dict) and n.keys and all(isinstance(k, ast.Constant) for k in n.keys):
                 try:
                     d = ast.literal_eval(n)
